@@ -8,3 +8,11 @@ def mfunc(x=None):
 class Base:
     def meth(self, x=None):
         return x
+
+
+def req(p):
+    return p
+
+
+def deflt(q=0):
+    return q
